@@ -166,6 +166,8 @@ def drive(task):
         if task["part"] == 0:
             for src in pdasrc.SPECIAL:
                 yield from events(src, task["n"], rng, limits=LIMITS)
+            for m in range(1, 64, 2):
+                yield from events({"kind": "pda_spelling", "mask": m}, 3, rng, limits=[10])
     elif task["kind"] == "tree":
         for d in task["depths"]:
             for lim in task["limits"]:
